@@ -26,7 +26,9 @@ NAME_POOL = ['C', 'Y', 'H_h', 'x1', 'X_if', 'is_open', 'Pin', 'not_X', 'origin',
              # names that read like special values or missing-cell markers
              'nan', 'inf', 'NA',
              # a keyword with a digit stuck to it is an ordinary name
-             'in1', 'or2', 'if0', 'is1', 'as3', 'not9']
+             'in1', 'or2', 'if0', 'is1', 'as3', 'not9',
+             # names that merely begin like the solution records
+             'status2', 'iterations_cap']
 UNDERSCORE_POOL = ['_u', '_X', '__v']
 
 
